@@ -97,6 +97,12 @@ def run_programs(spec):
     m = lambda name: f"{name}:{spec['spec']}"
     try:
         gw, tee = make_gateway(group, spec["spec"])
+        # on some gateways the string coercion is switched (both sides then load str items as bytes); what is executed
+        # and how failures and keyword arguments travel must not depend on it
+        py2 = spec["shard"] % 3 == 2
+        if py2:
+            gw.reconfigure(py2str_as_py3str=True, py3str_as_py2str=True)
+            res.count("gateways_with_py3str_as_py2str")
         for i in range(spec["n"]):
             if res.enough(10):
                 break
@@ -145,7 +151,7 @@ def run_programs(spec):
             res.count("programs")
             if i < 2:
                 res.sample({"form": form, "stmts": short(prog["stmts"], 200), "observed_len": len(observed)})
-            diff = dsl.compare(observed, dsl.predict(prog))
+            diff = dsl.compare(observed, dsl.predict(prog, py2=py2))
             if diff:
                 kinds = sorted({s[0] for s in prog["stmts"]})
                 bad = "kwargs" if "'kw'" in diff else "transcript"
@@ -339,6 +345,28 @@ def uses_global_statement(channel):
     channel.send(CONSTANT)
 
 
+def global_augassign(channel):
+    global CONSTANT
+    CONSTANT += 1
+    channel.send("bumped")
+
+
+def global_store(channel):
+    global SOMETHING_NEW
+    SOMETHING_NEW = 1
+    channel.send("stored")
+
+
+def global_del(channel):
+    global CONSTANT
+    del CONSTANT
+    channel.send("deleted")
+
+
+def attribute_of_global(channel):
+    channel.send(os.path.sep)
+
+
 def nested_uses_global(channel):
     def inner():
         return helper(2)
@@ -357,6 +385,7 @@ SHAPES = {
     "star_args": ("reject", {}), "channel_second": ("reject", {"x": 1}), "star_channel": ("reject", {}), "kwonly_channel": ("reject", {}),
     "starstar_channel": ("reject", {}), "method_like": ("reject", {}), "channel_with_default": ("ok", {}), "closure": ("reject", {}), "lam": ("reject", {}),
     "decorated_wrapped": ("reject", {}), "uses_global_statement": ("reject", {}), "nested_uses_global": ("reject", {}),
+    "global_augassign": ("reject", {}), "global_store": ("reject", {}), "global_del": ("reject", {}), "attribute_of_global": ("reject", {}),
 }
 
 
